@@ -85,6 +85,11 @@ func (p *Parser) parseHeader(data []byte) (header *parser.PacketHeader, buf []by
 		}
 
 		header.Attachments = int(attachments)
+		if header.Attachments < 0 {
+			// More attachments than an int can hold.
+			err = errMalformedPacket
+			return nil, nil, "", err
+		}
 
 		if i+1 < len(data) {
 			data = data[i+1:]
